@@ -257,7 +257,7 @@ impl Check for C20 {
                 if class_of(&run_t.outcome) != class_of(&run.outcome) || run_t.trace.actions != run.trace.actions {
                     return Verdict::Fail(
                         "C20:trimming_changes_outcome_under_a_depth_limit".into(),
-                        format!("limit {limit}: untrimmed {:?}, trimmed {:?}\n{}", run.outcome, run_t.outcome, ctx(&ot)),
+                        format!("limit {limit}: untrimmed {:?}, trimmed {:?}\nactions untrimmed {:?}\nactions trimmed   {:?}\n{}", run.outcome, run_t.outcome, run.trace.actions, run_t.trace.actions, ctx(&ot)),
                     );
                 }
                 let exceeded = matches!(&run.outcome, Outcome::Err(k, _) if k == "MaxParsingDepthExceeded");
